@@ -55,8 +55,12 @@ def _speller(name: str, flipseed: int):
     if name == "alternating":
         return lambda s: "".join(c.upper() if i % 2 else c.lower() for i, c in enumerate(s))
 
+    occ = [0]
+
     def rnd(s: str) -> str:
-        rr = random.Random(f"{flipseed}:{s}")
+        # every occurrence is respelled independently (the same identifier may be spelled differently twice)
+        occ[0] += 1
+        rr = random.Random(f"{flipseed}:{occ[0]}:{s}")
         return "".join(c.upper() if rr.random() < 0.5 else c.lower() for c in s)
 
     return rnd
